@@ -104,6 +104,7 @@ type sq struct {
 	named    []types.Object    // named results (variables; a bare return yields their current values)
 	closures []*ast.FuncLit    // deferred function literals, by index ("§CLOSURE§i" in a defers list)
 	conts    []func() string   // continuation stack: what follows the end of a deferred closure's body
+	inCont   int               // > 0 while the body of a continuation definition is being translated
 	breaks   []breakCtx        // enclosing breakable constructs, innermost last
 	litName  map[token.Pos]int // function literals used as values, numbered in source order
 }
@@ -118,7 +119,8 @@ type breakCtx struct {
 // callCont: the end of a select arm when what follows the select was bound to a local continuation `k`
 type callCont struct {
 	ast.EmptyStmt
-	call string
+	call string // with §REC§ where the loop is passed on
+	rec  string // how the loop is named outside a continuation definition: `(<loop> E fuel)`
 }
 
 // popBreak marks, inside a statement list, the end of a select arm's own statements: what follows belongs to the
@@ -137,6 +139,7 @@ type loopCtx struct {
 	defers []string
 	outer  []*loopCtx
 	breakDepth int
+	viaRec bool
 }
 
 // escaped: &x of a local x is only understood when x is not used afterwards (the pointer and the Lean variable would
@@ -1547,7 +1550,10 @@ func (s *sq) stmts(list []ast.Stmt, defers []string) string {
 	st, rest := list[0], list[1:]
 	switch x := st.(type) {
 	case *callCont:
-		return x.call
+		if s.inCont > 0 {
+			return strings.ReplaceAll(x.call, "§REC§", "rec_")
+		}
+		return strings.ReplaceAll(x.call, "§REC§", x.rec)
 	case *popBreak:
 		saved := s.breaks
 		if len(s.breaks) > 0 {
@@ -2180,6 +2186,17 @@ func (s *sq) forLoop(x *ast.ForStmt, rest []ast.Stmt, defers []string) string {
 }
 
 func (s *sq) loopCall(ctx *loopCtx) string {
+	if s.inCont > 0 && len(s.loops) > 0 && ctx == s.loops[len(s.loops)-1] && ctx.viaRec {
+		// inside a continuation definition the loop is reached through its `rec_` parameter
+		args := ""
+		if s.usesW {
+			args += " w"
+		}
+		for _, o := range ctx.params {
+			args += " " + s.names[o]
+		}
+		return "rec_" + args
+	}
 	args := ""
 	if s.usesW {
 		args += " w"
@@ -2339,24 +2356,86 @@ func (s *sq) selectStmt(x *ast.SelectStmt, rest []ast.Stmt, defers []string) str
 		}
 		armStmts = append(armStmts, a.body...)
 	}
-	if falls >= 2 && len(rest) >= 2 && !s.inBranch {
-		byName := map[string]types.Object{}
-		for o, n := range s.names {
-			byName[n] = o
+	realRest := 0
+	for _, r := range rest {
+		switch r.(type) {
+		case *popBreak, *callCont:
+		default:
+			realRest++
 		}
-		var ps, as []string
-		for _, n := range s.assigned(armStmts) {
-			if o := byName[n]; o != nil {
-				ps = append(ps, fmt.Sprintf("(%s : %s)", n, s.lt(s.varType(o), x)))
-				as = append(as, n)
+	}
+	if falls >= 2 && realRest >= 2 && !s.inBranch {
+		// a separate definition: parameters are the variables its statements use, the World, and — when the select is
+		// inside a loop — the loop itself (`rec_`), so that no mutual recursion is needed
+		nodes := []ast.Node{}
+		for _, r := range rest {
+			nodes = append(nodes, r)
+		}
+		used := s.usedObjects(nodes)
+		var loop *loopCtx
+		if len(s.loops) > 0 {
+			loop = s.loops[len(s.loops)-1]
+			for _, o := range loop.params {
+				used[o] = true
 			}
 		}
-		kname := s.fresh("k")
+		if s.valRcv != nil && s.rcvMut {
+			used[s.valRcv] = true
+		}
+		var params []types.Object
+		for o := range s.names {
+			if used[o] && o != s.worldRcv {
+				params = append(params, o)
+			}
+		}
+		sort.Slice(params, func(i, j int) bool { return params[i].Pos() < params[j].Pos() })
+		kname := fmt.Sprintf("%s_k%d", s.lean, len(s.aux)+1)
+		for taken := true; taken; {
+			taken = false
+			for _, a := range s.aux {
+				if strings.Contains(a, "def "+kname+" ") {
+					kname += "x"
+					taken = true
+				}
+			}
+		}
+		var sig []string
+		call := kname + " E"
+		recStr := ""
+		if loop != nil {
+			rt := ""
+			if s.usesW {
+				rt = "§World → "
+			}
+			for _, o := range loop.params {
+				rt += s.lt(s.varType(o), x) + " → "
+			}
+			sig = append(sig, "(rec_ : "+rt+"§RESULT)")
+			call += " §REC§"
+			recStr = "(" + loop.name + " E fuel)"
+		}
+		if s.usesW {
+			sig = append(sig, "(w : §World)")
+			call += " w"
+		}
+		for _, o := range params {
+			sig = append(sig, fmt.Sprintf("(%s : %s)", s.names[o], s.lt(s.varType(o), x)))
+			call += " " + s.names[o]
+		}
 		saved, savedUsed := copyNames(s.names), copyUsed(s.used)
+		s.inCont++
+		if loop != nil {
+			loop.viaRec = true
+		}
 		kbody := s.stmts(rest, defers)
+		if loop != nil {
+			loop.viaRec = false
+		}
+		s.inCont--
 		s.names, s.used = saved, savedUsed
-		pre = append(pre, fmt.Sprintf("let %s := fun (w : §World) %s =>\n  %s", kname, strings.Join(ps, " "), indent(kbody)))
-		rest = []ast.Stmt{&callCont{call: kname + " w" + prefixEach(as)}}
+		s.aux = append(s.aux, fmt.Sprintf("/-- what follows the select of %s at %s (reached from several of its cases) -/\ndef %s (E : Env_%s) %s : §RESULT :=\n  %s",
+			s.fn, s.p.pos(x), kname, s.lean, strings.Join(sig, " "), indent(kbody)))
+		rest = []ast.Stmt{&callCont{call: call, rec: recStr}}
 	}
 	var build func(i int) string
 	build = func(i int) string {
